@@ -15,3 +15,5 @@ open Verif.Props.C14
 #print axioms exec_healthy
 #print axioms main_block_verdict
 #print axioms C14_main
+#print axioms writer_close_returns_minifier_error
+#print axioms writer_close_always_returns
